@@ -10,9 +10,20 @@ ASSUME_E1 = [
     'gcc 12 -O2 -DNDEBUG (shipped flags) + AddressSanitizer; thorough tier also -O0 with the library asserts live',
 ]
 
+E1_NOTE = "Trusted: the harness's reference model and canonical key (DESIGN.md argues the key captures every field the future depends on), gcc 12 + AddressSanitizer, the bounded scope stated in the evidence (pool size, value alphabet, number of objects). Within that scope the search runs to closure, so histories of every length are covered."
+
+NOT_APPLICABLE = {}
+
+ENGINES = [
+    {'name': 'seqx', 'path': 'engine/mc.h', 'serves_properties': ['C01', 'C02', 'C07', 'C08', 'C12', 'C13', 'C15'], 'kind_free_text': 'explicit-state breadth-first closure search over the real library code; state = operation history replayed on fresh objects, deduplicated by a canonical serialisation of the real data structure; reference model + oracles on every transition'},
+]
+
 PROPS = {
     'C12': {
         'level': 'model_checking',
+        'claim': 'Exhaustive: every operation of the dlist API applied in every reachable state of 2-3 lists over a pool of 4-6 elements (closure), each transition executed on the real code and compared with an array model in both traversal directions; also under ASan with erased elements poisoned.',
+        'note': E1_NOTE,
+        'technique': 'explicit-state BFS to closure on the real code vs reference model (replay-based states)',
         'jobs': [{'world': 'dlist', 'src': 'worlds/dlist_world.c', 'lib': ['dlist.c'], 'flavours': RELDBG_ALWAYS}],
         'rule': 'breadth-first search to closure over all operation sequences of the dlist API on 2-3 lists and a pool of 4-6 elements; '
                 'every transition executes the real function and is compared with an array reference model; a state is non-trivial when some list is non-empty',
@@ -20,6 +31,9 @@ PROPS = {
     },
     'C13': {
         'level': 'model_checking',
+        'claim': 'Exhaustive: every slist operation (push_back and pop_front in every state, erase_after at every position relative to the tail) applied in every reachable state of 2-3 lists over 4-6 elements, compared with an array model.',
+        'note': E1_NOTE,
+        'technique': 'explicit-state BFS to closure on the real code vs reference model (replay-based states)',
         'jobs': [{'world': 'slist', 'src': 'worlds/slist_world.c', 'lib': ['slist.c'], 'flavours': RELDBG_ALWAYS}],
         'rule': 'breadth-first search to closure over all operation sequences of the slist API (push_back and pop_front applied in EVERY reachable state, '
                 'including empty lists and right after the last element was erased/reversed/sorted/concatenated/swapped) on 2-3 lists and a pool of 4-6 elements; '
@@ -28,6 +42,9 @@ PROPS = {
     },
     'C01': {
         'level': 'model_checking',
+        'claim': 'Exhaustive within scope: closure over all insert/hinted-insert/erase/clear/swap histories on bintree and rbtree for pools of 6-11 (thorough 8-13) elements with distinct, paired, all-equal and heavy key multisets and three comparators; every state audited through find and both traversals with early stops at every visit.',
+        'note': E1_NOTE,
+        'technique': 'explicit-state BFS to closure on the real code vs set model',
         'jobs': [{'world': 'tree', 'src': 'worlds/tree_world.c', 'lib': ['bintree.c', 'rbtree.c'], 'flavours': RELDBG_ALWAYS}],
         'rule': 'breadth-first search to closure over insert / hinted insert (parent from find) / erase by probe key / erase by member / clear / swap on cstl_bintree and cstl_rbtree, '
                 'pools with distinct, paired, all-equal and one-heavy key multisets, three comparators; every state audited with find for every key, forward and reverse traversal '
@@ -36,9 +53,49 @@ PROPS = {
     },
     'C02': {
         'level': 'model_checking',
+        'claim': 'Exhaustive within scope: every red-black tree shape and colouring reachable with up to 11 (thorough 13) elements by any insert/erase order, red-black rules and the height bound evaluated in every state.',
+        'note': E1_NOTE,
+        'technique': 'explicit-state BFS to closure on the real code with a structural invariant in every state',
         'jobs': [{'world': 'tree', 'src': 'worlds/tree_world.c', 'lib': ['bintree.c', 'rbtree.c'], 'flavours': RELDBG_ALWAYS}],
         'rule': 'same closure search as C01 (cstl_rbtree configurations carry the oracle): in every reachable state root black, no red-red, equal black height, '
                 'parent links, cstl_rbtree_height max <= 2*log2(n+1); non-trivial = at least 3 elements held',
         'assumptions': ASSUME_E1,
+    },
+    'C07': {
+        'level': 'model_checking',
+        'claim': 'Exhaustive within scope: every heap shape reachable by push/pop/clear/swap over pools of 7-8 (thorough 8-10) elements incl. ties and sign-only/reversed comparators; max-at-root, exact removal and level-order completeness in every state.',
+        'note': E1_NOTE,
+        'technique': 'explicit-state BFS to closure on the real code vs multiset model',
+        'jobs': [{'world': 'heap', 'src': 'worlds/heap_world.c', 'lib': ['heap.c', 'bintree.c', 'common.c'], 'flavours': RELDBG_ALWAYS}],
+        'rule': 'breadth-first search to closure over push / pop (also on the empty heap) / clear / swap for pools with distinct, paired, all-equal and heavy priorities and '
+                'difference, sign-only and reversed comparators; in every state get must be a held maximum and level-order slots 1..size must be exactly the occupied ones; '
+                'non-trivial = at least 3 elements held',
+        'assumptions': ASSUME_E1,
+    },
+    'C08': {
+        'level': 'model_checking',
+        'claim': 'Exhaustive within scope: closure over insert/find/erase/erase_iterator/clear on 4-10 (thorough 5-12) key values incl. equal-comparing twin key objects, stored-pointer identity and live-allocation count after every operation.',
+        'note': E1_NOTE,
+        'technique': 'explicit-state BFS to closure on the real code vs association-list model + allocation accounting',
+        'jobs': [{'world': 'map', 'src': 'worlds/map_world.c', 'lib': ['map.c', 'rbtree.c', 'bintree.c'], 'flavours': RELDBG_ALWAYS}],
+        'rule': 'breadth-first search to closure over insert (every key object x value token, with and without iterator), erase by key, find+erase_iterator, clear(callback), clear(NULL) '
+                'on a key universe that contains second key objects comparing equal; reference model = association list of the stored pointers; the allocation layer counts the map\'s live nodes '
+                'after every operation; non-trivial = at least 3 entries held',
+        'assumptions': ASSUME_E1,
+    },
+    'C15': {
+        'level': 'model_checking',
+        'claim': 'Exhaustive within scope: clear applied in every reachable state of the six containers with a counting+poisoning callback; cleared object must equal a freshly initialised one field for field.',
+        'note': E1_NOTE,
+        'technique': 'explicit-state BFS to closure; clear transition with ASan-poisoning callback in every reachable state',
+        'jobs': [{'world': 'tree', 'src': 'worlds/tree_world.c', 'lib': ['bintree.c', 'rbtree.c'], 'flavours': BOTH},
+                 {'world': 'heap', 'src': 'worlds/heap_world.c', 'lib': ['heap.c', 'bintree.c', 'common.c'], 'flavours': BOTH},
+                 {'world': 'dlist', 'src': 'worlds/dlist_world.c', 'lib': ['dlist.c'], 'flavours': BOTH},
+                 {'world': 'slist', 'src': 'worlds/slist_world.c', 'lib': ['slist.c'], 'flavours': BOTH},
+                 {'world': 'map', 'src': 'worlds/map_world.c', 'lib': ['map.c', 'rbtree.c', 'bintree.c'], 'flavours': BOTH}],
+        'rule': 'the clear transition of the closure searches of C01/C02 (bintree, rbtree), C07 (heap), C12 (dlist), C13 (slist) and C08 (map) is applied in EVERY reachable container state with a '
+                'callback that counts per element and poisons the element (AddressSanitizer manual poisoning = the element was freed); afterwards the container object must be '
+                'field-for-field what its init function produces, so everything reachable from fresh is reachable from cleared; non-trivial = states with at least 3 elements',
+        'assumptions': ASSUME_E1 + ['a later read of a handed-over element is detected through ASan manual poisoning of the whole element'],
     },
 }
